@@ -47,6 +47,8 @@ Definition spec_run (declared standins tops sup_tops : list string) (has_sg : bo
         && forallb (fun k => str_in k (pk ++ extra)) (keys sns)                 (* nothing else: no dotted dest leaks *)
         && forallb (fun k => mem k sns)
              (filter (fun k => negb (str_in k sup_tops)) extra)                 (* one attribute per destination *)
+        && forallb (fun k => opt_nval_eqb (lookup k sns) (Some NInst))
+             (filter (fun k => negb (str_in k sup_tops)) tops)                  (* ... holding the dataclass instance *)
   end.
 
 (* add_argument_group in argparse: the keyword wins whenever it is passed (kwargs.setdefault) *)
